@@ -48,7 +48,10 @@ func Run(args []string) int {
 	slow := fs.Int("slow", 6, "max number of cases that wait for a 500 ms pid-file poll")
 	workers := fs.Int("workers", 8, "parallel cases")
 	corpus := fs.String("corpus", "", "file with Reload cases in the model's R vocabulary, run first")
+	only := fs.Int("only", -1, "run only the case with this index (= output line number) of the same seed and sizes")
+	scale := fs.Int("scale", 1, "multiply every scaled-down timeout by this factor")
 	_ = fs.Parse(args)
+	setScale(*scale)
 
 	base := "/verif/work/tmp"
 	if err := os.MkdirAll(base, 0o755); err != nil {
@@ -107,6 +110,14 @@ func Run(args []string) int {
 		p := pid
 		jobs = append(jobs, func() line { return waitCase(cr, root, p) })
 	}
+	if *nHandler > 0 { // directed: every error class right after the version file, OSS and Plus
+		for i, cls := range faultClasses {
+			cr := r.Fork()
+			pid++
+			p, c, plus := pid, cls, i%2 == 1
+			jobs = append(jobs, func() line { return applyDirectedCase(cr, root, p, c, plus) })
+		}
+	}
 	for i := 0; i < *nHandler; i++ {
 		cr := r.Fork()
 		pid++
@@ -123,6 +134,14 @@ func Run(args []string) int {
 	for i := 0; i < *nStatus; i++ {
 		cr := r.Fork()
 		jobs = append(jobs, func() line { return statusCase(cr) })
+	}
+	if *only >= 0 {
+		// the forks above were drawn for every case, so case #only sees the same random stream
+		if *only >= len(jobs) {
+			fmt.Fprintln(os.Stderr, "no such case")
+			return 2
+		}
+		jobs = jobs[*only : *only+1]
 	}
 	lines := runParallel(jobs, *workers)
 	w := bufio.NewWriter(os.Stdout)
